@@ -91,7 +91,7 @@ DownSteps(S, t) ==
      \* ... and is invoked: next entry of the execution's script
      LET k == X.calls + 1
          f == IF k <= Len(cfg.fns[T.x]) THEN cfg.fns[T.x][k] ELSE cfg.fnDefault
-         X1 == [X EXCEPT !.calls = k]
+         X1 == [X EXCEPT !.calls = k, !.callobj = Append(@, o)]
          S1 == [Block(SetX(S, t, X1), t, [k |-> "fn", until |-> now + f.d, coop |-> f.coop, kk |-> k]) EXCEPT !.th[t].sub = "-"]
      IN One(S1, Lab("FnStart", S, t, N + 1, T.snap, [k |-> k, hedge |-> X.objs[o].hedge, canceled |-> Canceled(X, o)]))
   ELSE
@@ -115,6 +115,15 @@ DownSteps(S, t) ==
              S1 == [S EXCEPT !.pol[p.id] = a.b] IN
          IF a.ret THEN One(Desc(S1, t), IF a.ev = <<>> THEN NoLab ELSE [ev |-> "StateChanged", id |-> p.id, old |-> a.ev[1].old, new |-> a.ev[1].new])
          ELSE Silent(Ret(S1, t, i - 1, Failure(Leaf("ErrOpen"))))
+    [] p.k = "rl" ->
+         \* smooth limiter (ratelimiterstats.go smoothStats.acquirePermits, one permit), then wait on a timer or the
+         \* execution's cancellation; refused (ErrExceeded, no state change) when the wait exceeds the max wait time
+         LET st == S.pol[p.id]
+             nn == IF now >= st.nextFree THEN (now - (now % p.ival)) + p.ival ELSE st.nextFree + p.ival
+             w0 == nn - now - p.ival
+             w == IF w0 < 0 THEN 0 ELSE w0 IN
+         IF w > p.wait THEN Silent([S EXCEPT !.th[t].mode = "onrl"])
+         ELSE Silent(Block([S EXCEPT !.pol[p.id] = [nextFree |-> nn]], t, [k |-> "rl", until |-> now + w, coop |-> TRUE, kk |-> 0]))
     [] p.k = "bh" ->
          \* phase 1: select { ctx.Done / semaphore <- / default }
          LET canc == Canceled(X, o)   free == S.pol[p.id] < p.max IN
@@ -241,6 +250,7 @@ UpSteps(S, t) ==
                   S1 == [S EXCEPT !.pol[p.id] = r.b, !.th[t].sub = "-"] IN
               One(Ret(S1, t, i - 1, IF fail THEN WithFailure(pr) ELSE WithDone(pr, TRUE, TRUE)),
                   IF r.ev = <<>> THEN NoLab ELSE [ev |-> "StateChanged", id |-> p.id, old |-> r.ev[1].old, new |-> r.ev[1].new])
+    [] p.k = "rl" -> Silent(Ret(S, t, i - 1, pr))                \* its own Apply: no PostExecute
     [] p.k = "bh" -> Silent(Ret([S EXCEPT !.pol[p.id] = @ - 1], t, i - 1, pr))
     [] p.k = "to" ->
          \* main side: CompareAndSwap(nil, inner); Stop the timer when it won; PostExecute(result.Load())
@@ -296,6 +306,17 @@ WakeSteps(S, t) ==
          IF w.until <= now \/ Canceled(X, o) THEN Silent([S EXCEPT !.th[t].mode = "up", !.th[t].w = NoWait]) ELSE {}
     [] w.k = "sleep" ->
          IF w.until <= now THEN Silent([S EXCEPT !.th[t].mode = "up", !.th[t].w = NoWait]) ELSE {}
+    [] w.k = "rl" ->
+         \* select { timer / exec.Canceled() }: cancelled => the failure is exec.LastError() (last error, else the context's)
+         (IF w.until <= now THEN Silent([Desc(S, t) EXCEPT !.th[t].w = NoWait]) ELSE {})
+         \cup (IF Canceled(X, o)
+               THEN LET le == IF IsNil(X.last[o].e) THEN Err(X, o) ELSE X.last[o].e IN
+                    \* StaleLastErrorOnCancelledWait (named deviation): when the last recorded error is the limiter's own
+                    \* ErrExceeded (an earlier refused attempt), the executor takes it for a refusal and calls OnRateLimitExceeded
+                    IF le = Leaf("RateExceeded")
+                    THEN Silent([SetX(S, t, [X EXCEPT !.spurious = @ + 1]) EXCEPT !.th[t].mode = "onrl", !.th[t].w = NoWait])
+                    ELSE Silent([Ret(S, t, i - 1, Failure(le)) EXCEPT !.th[t].w = NoWait])
+               ELSE {})
     [] w.k = "bhacq" ->
          LET id == T.sub IN
          (IF w.kk \in S.acqc THEN One(End(S, t), [ev |-> "BhAcquired", w |-> w.kk, ok |-> FALSE]) ELSE {})
@@ -337,6 +358,10 @@ Steps(S, t) ==
            [] T.sub = "acqok" -> One(End(S, t), [ev |-> "BhAcquired", w |-> T.w.kk, ok |-> TRUE])
            [] T.sub = "took" -> One(End(S, t), [ev |-> "BhTake", id |-> id, ok |-> TRUE])
            [] T.sub = "full" -> One(End(S, t), [ev |-> "BhTake", id |-> id, ok |-> FALSE]))
+    [] T.mode = "onrl" ->         \* the limiter refused: the listener gets a copy of the execution taken now ...
+         Silent([S EXCEPT !.th[t].mode = "onrl2", !.th[t].snap = XX(S, t).last[T.obj]])
+    [] T.mode = "onrl2" ->
+         One(Ret(S, t, T.i - 1, Failure(Leaf("RateExceeded"))), Lab("OnRateLimitExceeded", S, t, T.i, T.snap, NoX))
     [] T.mode = "onfull" ->       \* the bulkhead refused (ErrFull): the listener gets a copy of the execution taken now ...
          Silent([S EXCEPT !.th[t].mode = "onfull2", !.th[t].snap = XX(S, t).last[T.obj]])
     [] T.mode = "onfull2" ->      \* ... OnFull listener, then the failure result goes up
@@ -360,7 +385,7 @@ FreshExec(e) ==
               [par |-> 1, can |-> FALSE, cause |-> "-", hedge |-> FALSE, cf |-> cfg.asyncFix]>>,   \* 2: async: child context of the result
    last |-> <<NoLast, NoLast>>, cres |-> NilPR, att |-> 1, ret |-> 0, hdg |-> 0, exe |-> 0, calls |-> 0, t0 |-> now,
    rs |-> [j \in 1..N |-> [failed |-> 0, exceeded |-> FALSE]], final |-> NilPR, returned |-> FALSE, async |-> e.async, cancel1 |-> FALSE,
-   stored |-> FALSE, doneflag |-> FALSE, closed |-> FALSE]
+   stored |-> FALSE, doneflag |-> FALSE, closed |-> FALSE, callobj |-> <<>>, spurious |-> 0]
 
 \* one environment action (performed by the harness' controller at its scripted instant)
 EnvSteps(S) ==
